@@ -49,7 +49,10 @@ def sim_case(draw):
             else:
                 row.append(draw(st.one_of(st.just(0.0), st.floats(0, 1), st.integers(0, 3))))
         vals.append(row)
+    # amplitudes are usually complex numbers, but an amplitude-typed result may just as well hold real data
+    # (a real unitary, the real part of a simulation, integers in a hand-built table)
     return {"modes": m, "inputs": ins, "outputs": outs, "amp": amp, "values": vals,
+            "amp_dtype": draw(st.sampled_from(["complex", "complex", "float", "int"])),
             "maps": [list(x) for x in draw(MAPS)]}
 
 
@@ -85,7 +88,13 @@ def run_sim(case):
     from lightworks.emulator.results import SimulationResult
     ins, outs = case["inputs"], case["outputs"]
     if case["amp"]:
-        arr = np.array([[complex(*v) for v in row] for row in case["values"]])
+        kind = case.get("amp_dtype", "complex")
+        if kind == "float":
+            arr = np.array([[float(v[0]) for v in row] for row in case["values"]])
+        elif kind == "int":
+            arr = np.array([[int(round(3 * v[0])) for v in row] for row in case["values"]])
+        else:
+            arr = np.array([[complex(*v) for v in row] for row in case["values"]])
     else:
         arr = np.array([[float(v) for v in row] for row in case["values"]])
     rtype = "probability_amplitude" if case["amp"] else "probability"
@@ -101,7 +110,7 @@ def run_sim(case):
         for kind, inv in case["maps"]:
             fn = r.apply_threshold_mapping if kind == "threshold" else r.apply_parity_mapping
             expect_raises(f"{kind}-mapping-on-amplitudes", (ValueError,), fn, invert=inv)
-        return {"nontrivial": True, "labels": ["amplitude-typed"]}
+        return {"nontrivial": True, "labels": ["amplitude-typed", "amplitude-dtype-" + case.get("amp_dtype", "complex")]}
     # model
     model = [{tuple(o): arr[i, j] for j, o in enumerate(outs)} for i in range(len(ins))]
     cur, cur_model = r, model
